@@ -22,6 +22,7 @@ from .listhost import Host
 
 common.import_repo()
 from autobean_refactor import models  # noqa: E402
+from autobean_refactor.models import base as base_models  # noqa: E402
 
 NONE = 99
 SEPARATOR_TYPES = (models.Whitespace, models.Newline, models.Comma)
@@ -353,7 +354,7 @@ class Replay:
                     ok = False
         # ---- popped node ----------------------------------------------------------
         if ev['op'] in ('pop',) and exc is None and result is not None and 'popped' in self.check \
-                and not isinstance(result, (str, int)):
+                and isinstance(result, base_models.RawModel):      # (value views pop plain Python values)
             try:
                 bad = tree.wellformed(result, self_contained=True)
                 if bad:
